@@ -196,6 +196,11 @@ def flat_method(ci, name, depth=2, stop=()):
     f = ci.methods.get(name)
     if f is None:
         raise AnalysisError('anchor vanished: %s.%s' % (ci.name, name))
+    helpers = {m_ for m_ in ci.methods if m_.startswith('_') and not m_.startswith('__')}
+    uses_helper = any(isinstance(c_, _ast.Call) and isinstance(c_.func, _ast.Attribute) and c_.func.attr in helpers and c_.func.attr not in stop
+                      and isinstance(c_.func.value, _ast.Name) and c_.func.value.id in ('self', ci.name) for c_ in _ast.walk(f.node))
+    if not uses_helper:
+        return f                      # nothing to read in place: the rule sees the method as written
     flat = peval.flatten({n_: f_.node for n_, f_ in ci.methods.items()}, f.node, depth=depth, stop=stop, impure=True)
     _ast.fix_missing_locations(flat)
     if _ast.dump(flat) == _ast.dump(f.node):
@@ -215,7 +220,11 @@ def flat_function(fi, depth=2, stop=()):
     import copy
     from ..engine import peval
     mod_funcs = {n_.name: n_ for n_ in fi.module.tree.body if isinstance(n_, _ast.FunctionDef)}
-    flat = peval.flatten_function(mod_funcs, fi.node, depth=depth, stop=stop, impure=True)
+    uses_helper = any(isinstance(c_, _ast.Call) and isinstance(c_.func, _ast.Name) and c_.func.id in mod_funcs and c_.func.id.startswith('_')
+                      and not c_.func.id.startswith('__') and c_.func.id not in stop for c_ in _ast.walk(fi.node))
+    if not uses_helper:
+        return fi                     # nothing to read in place: the rule sees the function as written
+    flat = peval.flatten_function(mod_funcs, fi.node, depth=depth, stop=stop, impure=False)
     _ast.fix_missing_locations(flat)
     if _ast.dump(flat) == _ast.dump(fi.node):
         return fi
